@@ -222,7 +222,7 @@ class CoreScenario(Scenario):
 
     def rin(self, bid, stim, obs):
         node = self.a.bodies[bid].node if self.a.bodies[bid].kind == "T" else self.a.mdefs[bid]
-        r = stim.get(node["ready"], 0) if node.get("ready") else 1
+        r = self.cval(node["ready"], stim, obs) if node.get("ready") else 1
         if node.get("rdy_run"):
             r = r or self.run(self.a.resolve(node["rdy_run"]), obs)
         return bool(r)
@@ -631,8 +631,8 @@ class CoreScenario(Scenario):
         n, _ = self.a.conds[cid]
         br = n["branches"][k]
         if br.get("cond"):
-            return bool(stim.get(br["cond"], 0))
-        return not any(stim.get(b["cond"], 0) for b in n["branches"] if b.get("cond"))
+            return bool(self.cval(br["cond"], stim, {}))
+        return not any(self.cval(b["cond"], stim, {}) for b in n["branches"] if b.get("cond"))
 
     def admissible(self, bid, stim, obs):
         """condition holds and all methods the branch calls are ready (and accept the arguments)."""
@@ -661,7 +661,7 @@ class CoreScenario(Scenario):
             # branch some condition always holds (the default's is "no other condition holds")
             has_default = any(not b.get("cond") for b in n["branches"])
             if n.get("nonblocking") and not has_default and \
-                    not any(stim.get(b["cond"], 0) for b in n["branches"] if b.get("cond")):
+                    not any(self.cval(b["cond"], stim, {}) for b in n["branches"] if b.get("cond")):
                 continue
             return False
         return True
@@ -698,7 +698,10 @@ class CoreScenario(Scenario):
             brs = [b["bid"] for b in n["branches"]]
             ran = [b for b in brs if obs[f"{b}.run"]]
             erun = bool(self.run(encl, obs))
-            conds = [bool(stim.get(b["cond"], 0)) for b in n["branches"] if b.get("cond")]
+            conds = [bool(self.cval(b["cond"], stim, {})) for b in n["branches"] if b.get("cond")]
+            if any(str(b.get("cond", "")).startswith("x:") and self.cval(b["cond"], stim, {}) and not stim.get(b["cond"].split(":")[1], 0) & 1
+                   for b in n["branches"] if b.get("cond")):
+                self.hit("cond_multibit_condition_true_with_bit0_clear")
             if len(ran) > 1:
                 raise Violation("condition-several-branches", f"{cid}: branches {ran} run in one cycle", cond=cid)
             for b in ran:
